@@ -436,6 +436,62 @@ def check_pipeline(case):
                         f"mode={case['mode']} fl={case['fl']}")
 
 
+@st.composite
+def crowd_cases(draw):
+    return {"tool": draw(st.sampled_from(["zip", "chain", "merge", "zip_longest", "map", "tee"])),
+            "n": draw(st.sampled_from([600, 1100, 1500, 2100])), "take": draw(st.integers(0, 2)),
+            "fl": draw(st.sampled_from(["aclass", "aclass", "agen"])), "fail_close": draw(st.sampled_from([None, None, 3, 700]))}
+
+
+def check_crowd(case):
+    """a tool that owns MANY iterators (hundreds to thousands: more than the interpreter's recursion limit) releases
+    all of them when it is closed - cleanup must not cost a stack frame per iterator"""
+    import asyncstdlib as a
+    from ..driver import Ctx, run, loop_mode, close_orphans
+    from ..values import Item
+
+    ctx = Ctx("a")
+    n, tool = case["n"], case["tool"]
+    srcs = [make_source(ctx, f"s{i}", [Item(i % 5, i)], {"fl": case["fl"]}, "a") for i in range(n if tool != "tee" else 1)]
+    if case["fail_close"] is not None and case["fl"] == "aclass" and tool != "tee":
+        k = min(case["fail_close"], n - 1)
+        srcs[k] = make_source(ctx, f"s{k}", [Item(0, k)], {"fl": "aclass", "cfault": "LookupError"}, "a")
+
+    async def scenario():
+        objs = [s_.obj for s_ in srcs]
+        if tool == "tee":
+            handle = a.tee(objs[0], n)
+            for child in list(handle)[:case["take"]]:
+                await child.__anext__()
+            await handle.aclose()
+            return None
+        it = {"zip": lambda: a.zip(*objs), "chain": lambda: a.chain(*objs), "merge": lambda: a.merge(*objs, key=lambda x: x.key),
+              "zip_longest": lambda: a.zip_longest(*objs), "map": lambda: a.map(lambda *xs: len(xs), *objs)}[tool]()
+        for _ in range(case["take"]):
+            try:
+                await it.__anext__()
+            except (StopAsyncIteration, LookupError):  # (LookupError: the planned failure of one source's aclose)
+                break
+        try:
+            await it.aclose()
+        except LookupError:
+            pass
+        return None
+
+    with loop_mode(ctx, "hooks"):
+        outcome = run(ctx, scenario())
+        expect_return(outcome, f"C04/{tool}")
+        # zip / zip_longest / map / merge have touched every source once the first item was asked for; chain closes
+        # what it owns in any case
+        owed = srcs if (case["take"] or tool in ("chain", "tee")) else []
+        leaked = [s_.name for s_ in owed if not s_.released]
+        close_orphans(ctx)
+    if leaked:
+        raise Violation(f"C04/{tool}/source-not-released-among-many", f"{len(leaked)} of {len(srcs)} sources left open "
+                        f"(first: {leaked[:3]}) take={case['take']} fail_close={case['fail_close']}")
+    return {"evaluations": 1, "nontrivial": ["x"] if case["take"] else [], "labels": {}}
+
+
 def pipeline_nontrivial(case):
     return case["fl"] in ASYNC_CLOSEABLE and case["take"] is not None and 0 < case["take"] <= len(case["items"])
 
@@ -453,6 +509,8 @@ def shards(tier):
     # several sources of very different lengths (empty ones included): bookkeeping by position / rank
     out += [Shard(f"many-{name}", check, strategy=cases(name, tier, many=True), n=300, nontrivial=lambda c: False,
                   thorough_mult=25) for name in ("merge", "zip", "zip_longest", "chain", "map")]
+    out.append(Shard("crowds", check_crowd, strategy=crowd_cases(), n=24, fuzz=0, nontrivial=lambda c: False,
+                     thorough_mult=4))
     out.append(Shard("tee-histories", check_tee, strategy=tee_cases(tier), n=1500,
                      nontrivial=tee_nontrivial, thorough_mult=25))
     out.append(Shard("groupby-histories", check_groupby, strategy=groupby_cases(tier), n=1500,
